@@ -336,6 +336,11 @@ def _cpu_ticks(pid):
         return -1
 
 
+# no harness blocks without output and without using CPU for this long unless it is stuck (the longest
+# deliberate wait of a harness is 20 s; the per-operation watchdog of vharness.h is 60 s)
+IDLE_CAP_S = float(os.environ.get("VERIF_IDLE_CAP_S", "150"))
+
+
 def _run_proc(cmd, text, timeout, env=None):
     """Run one process on `text`. `timeout` is an INACTIVITY limit: the process is killed when it has
     produced no output and used no CPU time for that long (blocked for ever), or when it has run for
@@ -384,7 +389,7 @@ def _run_proc(cmd, text, timeout, env=None):
         if c != cpu:
             cpu = c
             last[0] = now
-        if now - last[0] > timeout or now - t0 > 10 * timeout:
+        if now - last[0] > min(timeout, IDLE_CAP_S) or now - t0 > 10 * timeout:
             timed_out = True
             p.kill()
             break
@@ -441,8 +446,11 @@ def run_cases(cmd, cases, timeout=300, workers=None, env=None, chunk=None, crash
                 return
             text = "".join("case %d\n%s\n" % (i, "\n".join(cases[i])) if cases[i]
                            else "case %d\n" % i for i in idx)
+            t1 = time.time()
             rc, so, se = _run_proc(cmd, text, timeout, env)
             got = _parse_cases(so)
+            if os.environ.get("VERIF_TRACE_TIME") and time.time() - t1 > 5 and n > 1:
+                log("  process: cases %d..%d rc=%s %.1fs, %d of them answered" % (idx[0], idx[-1], rc, time.time() - t1, len(got)))
             if rc == 0:
                 for i in idx:
                     results[i] = {"out": got.get(i, []), "crash": None}
@@ -493,6 +501,8 @@ def run_one(cmd, ops, timeout=60, env=None):
 
 
 DDMIN_BUDGET_S = float(os.environ.get("VERIF_DDMIN_BUDGET_S", "150"))
+DDMIN_TOTAL_S = float(os.environ.get("VERIF_DDMIN_TOTAL_S", "400"))
+_ddmin_spent = [0.0]
 
 
 def ddmin(ops, fails, keep_prefix=0, max_tests=400, budget_s=None):
@@ -504,7 +514,9 @@ def ddmin(ops, fails, keep_prefix=0, max_tests=400, budget_s=None):
     n = 2
     t_start = time.time()
     len0 = len(body)
-    t_end = t_start + (DDMIN_BUDGET_S if budget_s is None else budget_s)
+    # all shrinking of one check run shares DDMIN_TOTAL_S (cases that hang cost a watchdog period per test)
+    left = max(0.0, DDMIN_TOTAL_S - _ddmin_spent[0])
+    t_end = t_start + min(left, DDMIN_BUDGET_S if budget_s is None else budget_s)
     while len(body) >= 2 and tests < max_tests and time.time() < t_end:
         size = max(1, len(body) // n)
         reduced = False
@@ -522,6 +534,7 @@ def ddmin(ops, fails, keep_prefix=0, max_tests=400, budget_s=None):
             if size == 1:
                 break
             n = min(len(body), n * 2)
+    _ddmin_spent[0] += time.time() - t_start
     if os.environ.get("VERIF_TRACE_TIME"):
         log("ddmin: %d -> %d ops, %d tests, %.1fs" % (len0, len(body), tests, time.time() - t_start))
     return head + body
@@ -846,9 +859,13 @@ def seq_correspondence(ctx, harness_cmd, driver_cmd, cases, nontrivial=None,
 
     reported = 0
     sigs_done = set()
+    attempts = 0
     for i in sorted(spec_bad):
-        if reported >= max_reports:
+        # thousands of failing cases may shrink to the same few replays (duplicates are not counted
+        # as reported): shrink a bounded number of them
+        if reported >= max_reports or attempts >= 4 * max_reports:
             break
+        attempts += 1
         j, got, want = spec_bad[i]
         ops = ddmin(cases[i], fails_spec, keep_prefix=keep_prefix)
         a = run_one(harness_cmd, ops, env=env)
